@@ -292,12 +292,13 @@ func C04(p *core.Program, r *core.Report) {
 		child := `μ(` + N + `.FirstChild|@0.NextSibling)`
 		spec := core.DecisionSpec{
 			Atoms: map[string]string{
-				"text":     q(`` + N + `.Type == html.TextNode`),
-				"element":  q(`` + N + `.Type == html.ElementNode`),
-				"br":       q(`` + N + `.Data == "br"`),
-				"visible":  q(`domutil.IsProbablyVisible(` + N + `)`),
-				"script":   q(`` + N + `.Data == "script"`),
-				"style":    q(`` + N + `.Data == "style"`),
+				"text":    q(`` + N + `.Type == html.TextNode`),
+				"element": q(`` + N + `.Type == html.ElementNode`),
+				"br":      q(`` + N + `.Data == "br"`),
+				"visible": q(`domutil.IsProbablyVisible(` + N + `)`),
+				// (the element name read as n.Data or through dom.TagName)
+				"script":   `^(` + regexp.QuoteMeta(N+`.Data`) + `|` + regexp.QuoteMeta(`dom.TagName(`+N+`)`) + `) == "script"$`,
+				"style":    `^(` + regexp.QuoteMeta(N+`.Data`) + `|` + regexp.QuoteMeta(`dom.TagName(`+N+`)`) + `) == "style"$`,
 				"children": q(`loop1(` + child + ` == nil)`),
 			},
 			Rules: []core.SpecRule{
